@@ -937,7 +937,7 @@ func (g *Gen) build(kind string) []int64 {
 			return nil
 		}
 		oi := g.R.Intn(len(g.S.Observers))
-		if g.S.Observers[oi].registered && !inv {
+		if g.S.Observers[oi].Foreign || (g.S.Observers[oi].registered && !inv) {
 			return nil
 		}
 		return []int64{26, int64(oi)}
@@ -946,7 +946,7 @@ func (g *Gen) build(kind string) []int64 {
 			return nil
 		}
 		oi := g.R.Intn(len(g.S.Observers))
-		if !g.S.Observers[oi].registered && !inv {
+		if g.S.Observers[oi].Foreign || (!g.S.Observers[oi].registered && !inv) {
 			return nil
 		}
 		return []int64{27, int64(oi)}
